@@ -94,7 +94,11 @@ func discoverFreezeFlag(p *Program) *freezeFlag {
 			return nil
 		}
 		fields := map[int][]*ssa.Const{}
-		for _, b := range f.Blocks {
+		scan := append([]*ssa.BasicBlock(nil), f.Blocks...)
+		for _, h := range nameSpaceHelpers(f) {
+			scan = append(scan, h.Blocks...)
+		}
+		for _, b := range scan {
 			for _, in := range b.Instrs {
 				st, ok := in.(*ssa.Store)
 				if !ok {
@@ -491,4 +495,79 @@ func checkFlagMonotone(p *Program, r *Report, ff *freezeFlag, rule string) {
 		}
 		r.Check(okAll, rule, cn+"#freeze-flag-kept", p.Pos(pos), "every store into the freeze flag ("+ff.name+") of a shared name space keeps it set", "the freeze flag of a name space that may already have been executed can be cleared here ("+why+"): Parse, AddParseTree and Clone are accepted again after the first execution, on trees the escaper has already rewritten")
 	}
+}
+
+// nameSpaceHelpers: the functions of the package that f calls with a name space as an argument (ns.freeze()).
+func nameSpaceHelpers(f *ssa.Function) []*ssa.Function {
+	var out []*ssa.Function
+	for _, b := range f.Blocks {
+		for _, in := range b.Instrs {
+			c, ok := in.(*ssa.Call)
+			if !ok {
+				continue
+			}
+			g := staticCallee(c.Common())
+			if g == nil || g.Pkg != f.Pkg || g.Blocks == nil {
+				continue
+			}
+			for _, a := range c.Common().Args {
+				if isNameSpacePtr(a.Type()) {
+					out = append(out, g)
+					break
+				}
+			}
+		}
+	}
+	return out
+}
+
+// setPoints: the instructions of f at which the flag is set: its own stores, and calls of helpers that set the
+// flag of the name space handed to them on every path.
+func (ff *freezeFlag) setPoints(f *ssa.Function) []ssa.Instruction {
+	var out []ssa.Instruction
+	for _, st := range ff.setStores(f) {
+		out = append(out, st)
+	}
+	for _, b := range f.Blocks {
+		for _, in := range b.Instrs {
+			c, ok := in.(*ssa.Call)
+			if !ok {
+				continue
+			}
+			g := staticCallee(c.Common())
+			if g == nil || g.Pkg != f.Pkg || g.Blocks == nil {
+				continue
+			}
+			hasNS := false
+			for _, a := range c.Common().Args {
+				if isNameSpacePtr(a.Type()) {
+					hasNS = true
+				}
+			}
+			if !hasNS {
+				continue
+			}
+			sets := ff.setStores(g)
+			if len(sets) == 0 {
+				continue
+			}
+			// on every path of the helper
+			all := true
+			for _, ret := range Returns(g) {
+				dominated := false
+				for _, st := range sets {
+					if st.Block().Dominates(ret.Block()) {
+						dominated = true
+					}
+				}
+				if !dominated {
+					all = false
+				}
+			}
+			if all {
+				out = append(out, c)
+			}
+		}
+	}
+	return out
 }
